@@ -859,6 +859,27 @@ example : Spec.C17.factorAt exF 12 "paid_loss" 0 = some 2 ∧
     ataTable exSquare ["paid_loss"] = .ok [(12, [("paid_loss", [3 / 2, 2])])] :=
   ⟨by decide +kernel, ex_sq_res, ex_sq_table⟩
 
+/-- **spec_ata_membership_bootstrapD_partial** (bridge to the Bool predicate, one hypothesis left). On the model's
+`bootstrapD` output, `Spec.C17.ataMembershipOk t reps[i] i field` — the verdict `membership` of the driver, over ALL
+slices of a sorted triangle — is TRUE for every replicate, provided every age-to-age slice is well formed
+(`SliceLayout`, distinct field names), the tag keeps slices apart, and `ColumnsInRatios`: the factors of the model's
+table into a cell's lag are among the Spec's independent `ratios s prev.devLag lag f` taken from the ROW PREDECESSOR's
+lag. Everything else of the predicate is bridged here: `sliceOf t c` = the k-th slice, the coordinate lookups in the
+summed replicate, the falsy / unselected / missing-field branches, and `x == y * r` for a factor `r` that
+`spec_ata_membership_partial` shows to be a member of the empirical column. `ColumnsInRatios` is what "no period
+skips a lag + unique (period, lag) per slice" is needed for; its derivation from those two facts (through
+`clipLags` / `lagPairs` / `periodsOf` / `find?`) is NOT done — hence `_partial`. -/
+theorem spec_ata_membership_bootstrapD_partial {t : List Cell} {n : Int} {field : Option (List String)}
+    {D : Nat → Nat → Draws} {reps : List (List Cell)} (h : bootstrapD t n field D = .ok reps)
+    (hk : kindsConsistent t = true) (hs : t.Pairwise (fun a b => Cell.le a b)) (hinj : ∀ i, TagInjective t i)
+    (hlay : ∀ s ∈ (Triangle.slices t).map (·.2), useAtas s = true →
+      SliceLayout s ∧ ∀ c ∈ s, c.values.keys.Nodup)
+    (hcol : ∀ k (hks : k < ((Triangle.slices t).map (·.2)).length) i,
+      ColumnsInRatios ((Triangle.slices t).map (·.2))[k]
+        (field.getD (fieldsOf ((Triangle.slices t).map (·.2))[k])) (D k i).I) :
+    ∀ i (hi : i < reps.length), Spec.C17.ataMembershipOk t reps[i] i field = true :=
+  ataMembershipOk_bootstrapD h hk hs hinj hlay hcol
+
 /-- **dev_lag_strict_mono.** The development lag in months is strictly increasing in the evaluation date (valid
 calendar dates, any period end): within a period, sorting by evaluation date is sorting by lag — the fact behind
 `RowsByLag` -/
@@ -928,6 +949,65 @@ example : Spec.C17.chainOkSlice exSquare (exDev.map (tagCell 0)) 0 ["paid_loss"]
   have h := spec_chain_bootstrapD_single bootstrapD_ok_instance (by decide) ex_sq_use ex_sq_kinds H
     (by decide +kernel) 0 (by simp)
   simpa [ex_sq_fields] using h
+
+/-- **spec_ata_membership_instance.** `spec_ata_membership_bootstrapD_partial` applied to the closed instance with
+EVERY hypothesis discharged (including `ColumnsInRatios`, `ex_sq_columns`): the verdict `membership` is true of the
+closed replicate — the bridge and its column hypothesis are not vacuous. -/
+theorem spec_ata_membership_instance :
+    Spec.C17.ataMembershipOk exSquare (exDev.map (tagCell 0)) 0 none = true := by
+  have hinj : ∀ i, TagInjective exSquare i := by
+    intro i c1 h1 c2 h2 _
+    have hmd : ∀ c ∈ exSquare, c.md = default := by decide +kernel
+    rw [hmd c1 h1, hmd c2 h2]
+  have key : ∀ S, (Triangle.slices exSquare).map (·.2) = S → S = [exSquare] →
+      (∀ k (hks : k < S.length) i, ColumnsInRatios S[k] ((none : Option (List String)).getD (fieldsOf S[k])) (exDraws k i).I) →
+      Spec.C17.ataMembershipOk exSquare (exDev.map (tagCell 0)) 0 none = true := by
+    intro S hS hS2 hcol
+    subst hS
+    refine spec_ata_membership_bootstrapD_partial bootstrapD_ok_instance ex_sq_kinds ex_sq_sorted hinj ?_ hcol 0 (by simp)
+    intro s hs _
+    rw [hS2] at hs
+    simp only [List.mem_cons, List.not_mem_nil, or_false] at hs
+    subst hs
+    exact ⟨ex_sq_layout, by decide +kernel⟩
+  refine key _ ex_sq_slices rfl ?_
+  intro k hks i
+  have : k = 0 := by simp at hks; omega
+  subst this
+  simp only [List.getElem_cons_zero, Option.getD_none, ex_sq_fields]
+  exact ex_sq_columns
+
+/-- **bootstrapD_ok_two.** Closed, kernel-checked TWO-slice instance: `bootstrapD` succeeds on `exTwo` (the square
+under two metadata), per-slice draws `exDraws2` (slice 0 swaps its factors, slice 1 keeps them); the replicate is the
+sum of the two tagged slice replicates. -/
+theorem bootstrapD_ok_two : bootstrapD exTwo 1 none exDraws2 =
+    .ok [exDev.map (tagCell 0) ++ exDevB.map (tagCell 0)] := by
+  have h1 : ¬ ((1 : Int) ≤ 0) := by decide
+  simp only [bootstrapD, h1, if_false, ex_two_slices, List.zipIdx_cons, List.zipIdx_nil, mapMExcept, bootstrapSliceD,
+    Option.getD_none, ex_sq_fields, ex_sqB_fields, Int.toNat_one, List.range_one, ex_sqA_rep2, ex_sqB_rep,
+    List.isEmpty_cons, Bool.false_eq_true, Nat.zero_add,
+    List.map_cons, List.map_nil, List.getD_cons_zero, sumTriangles, sumFrom, Triangle.add, ex_two_sum]
+
+/-- **spec_chain_two_slice_instance.** `spec_chain_bootstrapD_slices` applied to it with EVERY hypothesis discharged
+(`kindsConsistent`, `TagInjective`, and per slice `useAtas`, `SliceLayout`, distinct field names): the verdict `chain`
+is true of BOTH slices against the whole two-slice replicate — the multi-slice theorem is not vacuous. -/
+theorem spec_chain_two_slice_instance :
+    Spec.C17.chainOkSlice exSquare (exDev.map (tagCell 0) ++ exDevB.map (tagCell 0)) 0 ["paid_loss"]
+      (exDraws2 0 0).I = true ∧
+    Spec.C17.chainOkSlice exSquareB (exDev.map (tagCell 0) ++ exDevB.map (tagCell 0)) 0 ["paid_loss"]
+      (exDraws2 1 0).I = true := by
+  have key : ∀ S, (Triangle.slices exTwo).map (·.2) = S → ∀ k (hks : k < S.length),
+      useAtas S[k] = true → SliceLayout S[k] → (∀ c ∈ S[k], c.values.keys.Nodup) →
+      Spec.C17.chainOkSlice S[k] (exDev.map (tagCell 0) ++ exDevB.map (tagCell 0)) 0
+        ((none : Option (List String)).getD (fieldsOf S[k])) (exDraws2 k 0).I = true := by
+    intro S hS
+    subst hS
+    intro k hks hu H hwf
+    exact spec_chain_bootstrapD_slices bootstrapD_ok_two ex_two_kinds ex_two_tagInj k hks hu H hwf 0 (by simp)
+  have h0 := key _ ex_two_slices 0 (by simp) ex_sq_use ex_sq_layout (by decide +kernel)
+  have h1 := key _ ex_two_slices 1 (by simp) ex_sqB_use ex_sqB_layout (by decide +kernel)
+  simp only [List.getElem_cons_zero, List.getElem_cons_succ, Option.getD_none, ex_sq_fields, ex_sqB_fields] at h0 h1
+  exact ⟨h0, h1⟩
 
 /-- closed instance: `thin` SUCCEEDS with a valid draw (k = 2 of n = 3, positions 2 and 0) -/
 example : thin exSamples 2 [2, 0] = .ok (.fresh (exSamples.map (thinCell [2, 0]))) := by
